@@ -263,31 +263,26 @@ Definition c09_parent_which (L : lang) (k : c09_kind) : option c09_which :=
 (* the <Enum><Variant>Inner helper as a struct variant REFERS to it *)
 Definition c09_inner_ref_which (L : lang) : c09_which :=
   match L with Kotlin | Scala | Go => C9Orig | _ => C9Ren end.
-(* a type position: reconcile.rs rewrites Simple ids of structs, enums and aliases only *)
-Definition c09_type_ref_which (form : c09_form) (pos : c09_pos) : c09_which :=
-  match form, pos with
-  | C9Simple, C9Const => C9Orig
-  | C9Simple, _ => C9Ren
-  | C9Generic, _ => C9Orig
-  end.
+(* a type position: reconcile.rs rewrites every id a type mentions - Simple ids and (since the fix: commits
+   in /repo) the id of a Generic - in the types of structs, enums, aliases and (likewise) consts: whatever the
+   form and the position, a mention of a typeshared item is spelled with its renamed id *)
+Definition c09_type_ref_which (form : c09_form) (pos : c09_pos) : c09_which := C9Ren.
 
 Definition c09_renamed_away (i : id) : bool := negb (str_eqb (renamed i) (original i)).
 
 Definition c09_lang_tag (L : lang) : string :=
   match L with Go => "go" | Kotlin => "kotlin" | Scala => "scala" | Swift => "swift" | TypeScript => "typescript" | Python => "python" end.
 
-(* class of a reference FROM a type position to the item [e] *)
+(* class of a reference FROM a type position to the item [e]: the DEFINITION of [e] is printed under the
+   original name (c09_def_which) while every mention says the renamed one.  (The two classes in which the
+   MENTION kept the original name, C09-generic-ref and C09-const-type, are repaired in /repo and gone: a
+   reference G<..> to a renamed generic type and the type of a const are judged like every other mention.) *)
 Definition c09_type_site_class (L : lang) (form : c09_form) (pos : c09_pos) (e : c09_entity) : option string :=
   if c09_renamed_away (c9e_id e) && negb (c09_which_eqb (c09_def_which L (c9e_kind e)) (c09_type_ref_which form pos)) then
-    Some (match form, pos with
-          | C9Generic, _ => "C09-generic-ref"
-          | C9Simple, C9Const => "C09-const-type"
-          | C9Simple, _ =>
-            match c9e_kind e with
-            | C9KAlias _ => "C09-" ++ c09_lang_tag L ++ "-alias"
-            | C9KUnitEnum | C9KAlgEnum => "C09-" ++ c09_lang_tag L ++ "-enum"
-            | _ => "C09-" ++ c09_lang_tag L ++ "-other"
-            end
+    Some (match c9e_kind e with
+          | C9KAlias _ => "C09-" ++ c09_lang_tag L ++ "-alias"
+          | C9KUnitEnum | C9KAlgEnum => "C09-" ++ c09_lang_tag L ++ "-enum"
+          | _ => "C09-" ++ c09_lang_tag L ++ "-other"
           end)%string
   else None.
 Definition c09_parent_site_class (L : lang) (e : c09_entity) : option string :=
